@@ -9,3 +9,261 @@ theorem splitlinesKeep_flatten (t : Text) : (splitlinesKeep t).flatten = t := by
   simp [splitlinesKeep, splitKeepAux_flatten]
 
 end AasVerif.PyStr
+
+namespace AasVerif.PyStr
+
+/-- Python `text.split(sep)` for a one-character separator. -/
+def splitOn (sep : Nat) : Text → List Text
+  | [] => [[]]
+  | c :: cs =>
+    if c = sep then [] :: splitOn sep cs
+    else match splitOn sep cs with
+      | [] => [[c]]
+      | p :: ps => (c :: p) :: ps
+
+theorem splitOn_ne_nil (sep : Nat) (t : Text) : splitOn sep t ≠ [] := by
+  induction t with
+  | nil => simp [splitOn]
+  | cons c cs ih =>
+    unfold splitOn
+    split
+    · simp
+    · split <;> simp
+
+/-- Prepend `p` to the first element. -/
+def consHead (p : Text) : List Text → List Text
+  | [] => [p]
+  | l :: ls => (p ++ l) :: ls
+
+theorem splitOn_not_mem (sep : Nat) (t : Text) (h : sep ∉ t) : splitOn sep t = [t] := by
+  induction t with
+  | nil => rfl
+  | cons c cs ih =>
+    have hc : c ≠ sep := fun e => h (by simp [e])
+    have hcs : sep ∉ cs := fun e => h (by simp [e])
+    unfold splitOn
+    simp [hc, ih hcs]
+
+theorem splitOn_prefix (sep : Nat) (a t : Text) (h : sep ∉ a) :
+    splitOn sep (a ++ t) = consHead a (splitOn sep t) := by
+  induction a with
+  | nil =>
+    cases hs : splitOn sep t with
+    | nil => exact absurd hs (splitOn_ne_nil sep t)
+    | cons p ps => simp [consHead, hs]
+  | cons c cs ih =>
+    have hc : c ≠ sep := fun e => h (by simp [e])
+    have hcs : sep ∉ cs := fun e => h (by simp [e])
+    rw [List.cons_append, splitOn]
+    simp only [hc, if_false]
+    rw [ih hcs]
+    cases hs : splitOn sep t with
+    | nil => exact absurd hs (splitOn_ne_nil sep t)
+    | cons p ps => simp [consHead]
+
+theorem splitOn_append_sep (sep : Nat) (a b : Text) :
+    splitOn sep (a ++ sep :: b) = splitOn sep a ++ splitOn sep b := by
+  induction a with
+  | nil => simp [splitOn]
+  | cons c cs ih =>
+    rw [List.cons_append]
+    simp only [splitOn]
+    split
+    · simp [ih]
+    · rw [ih]
+      cases hs : splitOn sep cs with
+      | nil => exact absurd hs (splitOn_ne_nil sep cs)
+      | cons p ps => simp
+
+theorem splitOn_parts_free (sep : Nat) (t : Text) : ∀ p ∈ splitOn sep t, sep ∉ p := by
+  induction t with
+  | nil => simp [splitOn]
+  | cons c cs ih =>
+    unfold splitOn
+    split
+    · intro p hp
+      simp only [List.mem_cons] at hp
+      rcases hp with h | h
+      · simp [h]
+      · exact ih p h
+    · next hne =>
+      cases hs : splitOn sep cs with
+      | nil => exact absurd hs (splitOn_ne_nil sep cs)
+      | cons q qs =>
+        rw [hs] at ih
+        intro p hp
+        simp only [List.mem_cons] at hp
+        rcases hp with h | h
+        · subst h
+          have := ih q (by simp)
+          intro hm
+          simp only [List.mem_cons] at hm
+          rcases hm with h' | h'
+          · exact hne h'.symm
+          · exact this h'
+        · exact ih p (by simp [h])
+
+/-- The kept lines (`splitlines(True)`) of a text whose only line breaks are `\n`,
+given its `\n`-separated parts. -/
+def keepLines : List Text → List Text
+  | [] => []
+  | [l] => if l.isEmpty then [] else [l]
+  | l :: ls => (l ++ [10]) :: keepLines ls
+
+def OnlyNlBreaks (t : Text) : Prop := ∀ c ∈ t, isBreak c = true → c = 10
+
+theorem splitKeepAux_nl (cur t : Text) (h : OnlyNlBreaks t) :
+    splitKeepAux cur t = keepLines (consHead cur.reverse (splitOn 10 t)) := by
+  induction t generalizing cur with
+  | nil =>
+    simp only [splitKeepAux, splitOn, consHead, keepLines, List.append_nil]
+    by_cases hc : cur = [] <;> simp [hc]
+  | cons c rest ih =>
+    have hrest : OnlyNlBreaks rest := fun d hd hb => h d (by simp [hd]) hb
+    by_cases hb : isBreak c = true
+    · have hc : c = 10 := h c (by simp) hb
+      subst hc
+      have : splitKeepAux cur (10 :: rest) = (10 :: cur).reverse :: splitKeepAux [] rest := by
+        rw [splitKeepAux.eq_3 _ _ _ (by intro r hr; simp at hr)]
+        simp [hb]
+      rw [this, ih [] hrest]
+      simp only [splitOn, if_true, consHead, List.reverse_nil, List.append_nil, List.reverse_cons]
+      cases hs : splitOn 10 rest with
+      | nil => exact absurd hs (splitOn_ne_nil 10 rest)
+      | cons p ps => simp [keepLines]
+    · have hne : c ≠ 10 := by
+        intro e; subst e; exact hb (by decide)
+      have hne13 : ¬ (c = 13 ∧ ∃ r, rest = 10 :: r) := by
+        intro ⟨e, _⟩; subst e; exact hb (by decide)
+      have : splitKeepAux cur (c :: rest) = splitKeepAux (c :: cur) rest := by
+        rw [splitKeepAux.eq_3 _ _ _ (by intro r h1 h2; exact hne13 ⟨h1, r, h2⟩)]
+        simp [hb]
+      rw [this, ih (c :: cur) hrest]
+      simp only [splitOn, hne, if_false]
+      cases hs : splitOn 10 rest with
+      | nil => exact absurd hs (splitOn_ne_nil 10 rest)
+      | cons p ps => simp [consHead]
+
+theorem splitlinesKeep_nl (t : Text) (h : OnlyNlBreaks t) :
+    splitlinesKeep t = keepLines (splitOn 10 t) := by
+  rw [splitlinesKeep, splitKeepAux_nl [] t h]
+  cases hs : splitOn 10 t with
+  | nil => exact absurd hs (splitOn_ne_nil 10 t)
+  | cons p ps => simp [consHead]
+
+end AasVerif.PyStr
+
+namespace AasVerif.Report
+open AasVerif.PyStr
+
+/-- A continuation line as it appears in the report: indented by two spaces unless blank. -/
+def ind (l : Text) : Text := if hasNonSpace l = true then [32, 32] ++ l else l
+
+theorem hasNonSpace_append_nl (l : Text) : hasNonSpace (l ++ [10]) = hasNonSpace l := by
+  simp [hasNonSpace, isSpace]
+
+def renderLines (ls : List Text) : Text :=
+  ((keepLines ls).map (fun line => if hasNonSpace line = true then [32, 32] ++ line else line)).flatten
+
+theorem indent_nl (e : Text) (h : OnlyNlBreaks e) :
+    indent [32, 32] e = renderLines (splitOn 10 e) := by
+  rw [indent, splitlinesKeep_nl e h, renderLines]
+
+theorem ind_no_nl (l : Text) (h : 10 ∉ l) : 10 ∉ ind l := by
+  unfold ind
+  split <;> simp [h]
+
+theorem renderLines_cons_cons (l l' : Text) (ls : List Text) :
+    renderLines (l :: l' :: ls) = ind l ++ 10 :: renderLines (l' :: ls) := by
+  simp only [renderLines, keepLines, List.map_cons, List.flatten_cons, hasNonSpace_append_nl, ind]
+  split <;> simp
+
+theorem splitOn_renderLines (ls : List Text) (hne : ls ≠ []) (hfree : ∀ l ∈ ls, 10 ∉ l) :
+    splitOn 10 (renderLines ls) = ls.map ind := by
+  induction ls with
+  | nil => exact absurd rfl hne
+  | cons l rest ih =>
+    cases rest with
+    | nil =>
+      have hl : 10 ∉ l := hfree l (by simp)
+      by_cases he : l = []
+      · subst he
+        simp [renderLines, keepLines, splitOn, ind, hasNonSpace]
+      · have : renderLines [l] = ind l := by
+          simp [renderLines, keepLines, he, ind]
+        rw [this, splitOn_not_mem 10 _ (ind_no_nl l hl)]
+        rfl
+    | cons l' ls =>
+      have hl : 10 ∉ l := hfree l (by simp)
+      rw [renderLines_cons_cons, splitOn_append_sep,
+        splitOn_not_mem 10 _ (ind_no_nl l hl), ih (by simp) (fun x hx => hfree x (by simp [hx]))]
+      rfl
+
+end AasVerif.Report
+
+namespace AasVerif.Report
+open AasVerif.PyStr
+
+/-- The `\n`-lines of the bullet of `e`, given the `\n`-lines of `e`. -/
+def bulletLines (e : Text) : List Text :=
+  match splitOn 10 e with
+  | l0 :: ls => ([42, 32] ++ l0) :: ls.map ind
+  | [] => []
+
+theorem consHead_inj (a : Text) (x y : List Text) (hx : x ≠ []) (hy : y ≠ [])
+    (h : consHead a x = consHead a y) : x = y := by
+  cases x with
+  | nil => exact absurd rfl hx
+  | cons p ps =>
+    cases y with
+    | nil => exact absurd rfl hy
+    | cons q qs =>
+      simp only [consHead, List.cons.injEq, List.append_cancel_left_eq] at h
+      rw [h.1, h.2]
+
+theorem renderLines_visible (l0 : Text) (ls : List Text) (hv : hasNonSpace l0 = true) :
+    renderLines (l0 :: ls) = [32, 32] ++ (renderLines (l0 :: ls)).drop 2 := by
+  have hne : l0 ≠ [] := by
+    intro e; subst e; simp [hasNonSpace] at hv
+  cases ls with
+  | nil => simp [renderLines, keepLines, hne, hv]
+  | cons l' ls' => rw [renderLines_cons_cons]; simp [ind, hv]
+
+/-- Under `\n`-only line structure and a visible first line, the bullet of `e` is
+`"* " ++ X ++ "\n"` where the `\n`-lines of `"* " ++ X` are `bulletLines e`. -/
+theorem bullet_lines (e : Text) (hnl : OnlyNlBreaks e)
+    (hv : ∀ l0 ls, splitOn 10 e = l0 :: ls → hasNonSpace l0 = true) :
+    ∃ X, bullet e = [42, 32] ++ X ++ [10] ∧ splitOn 10 ([42, 32] ++ X) = bulletLines e := by
+  cases hs : splitOn 10 e with
+  | nil => exact absurd hs (splitOn_ne_nil 10 e)
+  | cons l0 ls =>
+    have hvis := hv l0 ls hs
+    refine ⟨(renderLines (l0 :: ls)).drop 2, ?_, ?_⟩
+    · rw [bullet, indent_nl e hnl, hs]
+    · have hfree : ∀ l ∈ l0 :: ls, 10 ∉ l := by
+        intro l hl; rw [← hs] at hl; exact splitOn_parts_free 10 e l hl
+      have h1 := splitOn_renderLines (l0 :: ls) (by simp) hfree
+      rw [renderLines_visible l0 ls hvis,
+        splitOn_prefix 10 [32, 32] _ (by decide)] at h1
+      have h2 : (l0 :: ls).map ind = consHead [32, 32] (l0 :: ls.map ind) := by
+        simp [consHead, ind, hvis]
+      rw [h2] at h1
+      have h3 := consHead_inj _ _ _ (splitOn_ne_nil 10 _) (by simp) h1
+      rw [splitOn_prefix 10 [42, 32] _ (by decide), h3, bulletLines, hs]
+      rfl
+
+theorem splitOn_bullets (es : List Text) (f : Text → List Text)
+    (h : ∀ e ∈ es, ∃ X, bullet e = [42, 32] ++ X ++ [10] ∧ splitOn 10 ([42, 32] ++ X) = f e) :
+    splitOn 10 (es.map bullet).flatten = es.flatMap f ++ [[]] := by
+  induction es with
+  | nil => simp [splitOn]
+  | cons e rest ih =>
+    obtain ⟨X, hb, hl⟩ := h e (by simp)
+    simp only [List.map_cons, List.flatten_cons, List.flatMap_cons]
+    rw [hb]
+    have : [42, 32] ++ X ++ [10] ++ (List.map bullet rest).flatten
+        = ([42, 32] ++ X) ++ 10 :: (List.map bullet rest).flatten := by simp
+    rw [this, splitOn_append_sep, hl, ih (fun e' he' => h e' (by simp [he']))]
+    simp
+
+end AasVerif.Report
